@@ -348,6 +348,39 @@ LOOKALIKES = ["\u2024", "\u2025", "\u2026", "\uff0e", "\ufe52", "\uff0f", "\u221
 UALPHA = ["/", "\u2025", "\u2024", "\uff0e", "a"]
 
 
+LIMITS = [255, 256, 1024, 4096, 8192, 65536]
+DOTTED = ["..data", ".cache", "...", "..a", ".b", ".. ", "..\u2025"]
+
+
+def filler(n):
+    """n characters of ordinary name components (at most 9 long) separated by single slashes, no slash at the ends"""
+    if n <= 0:
+        return ""
+    t = ("aaaaaaaaa/" * (n // 10 + 1))[:n]
+    return t[:-1] + "b" if t.endswith("/") else t
+
+
+def long_paths(rng, thorough):
+    """Canonical-looking paths whose lengths straddle the limits a helper might treat specially, built so that
+    for every prefix length in a window around each limit the prefix ends right after the leading dots of a legal
+    name (`..data`, `.cache`, ...): any truncation / chunking at that length would leave a bare '.' or '..'."""
+    out = []
+    for L in LIMITS:
+        window = range(-6, 7) if thorough or L in (4096, 256) else (-1, 0, 1, rng.randrange(-6, 7))
+        for d in window:
+            for name in (DOTTED if thorough else rng.sample(DOTTED, 3)):
+                ndots = len(name) - len(name.lstrip("."))
+                k = L + d - 2 - ndots          # '/' + filler(k) + '/' + dots  has length L + d
+                if k < 1:
+                    continue
+                lead = rng.choice(["/", "", "//", "/./", "/x/../"])
+                body = filler(k) + "/" + name + rng.choice(["", "/tail", "/" + filler(rng.randrange(1, 40)), "/.."])
+                out.append(lead + body)
+                # the same with the dotted name repeated, so that several consecutive cut points hit dots
+                out.append("/" + filler(max(1, k - 40)) + ("/" + name) * 12)
+    return out
+
+
 def gen_unicode(rng):
     mode = rng.randrange(3)
     if mode == 0:      # look-alike components against a few names, as a traversal attempt would be written
@@ -398,7 +431,9 @@ def run(ctx):
                 "up to length %d through the model (thorough: 10 / 8), a seeded sample of the longer ones through the "
                 "model, seeded random long paths ('..' runs, repeated separators, dotted names, non-ASCII), every string up "
                 "to length 5 (thorough 6) over {'/', U+2025, U+2024, U+FF0E, 'a'} and seeded paths built from Unicode "
-                "look-alikes of '.', '..', '/' and composed / decomposed names; the same paths as REALPATH requests through "
+                "look-alikes of '.', '..', '/' and composed / decomposed names; long paths whose lengths straddle 255 / 256 / "
+                "1024 / 4096 / 8192 / 65536 with dotted names (..data, .cache, ...) placed so that every prefix length in a "
+                "window around the limit ends right after the dots (oracle on all, model up to 1100 characters); the same paths as REALPATH requests through "
                 "the real SFTPServer._process, several sessions per process (overriding and default interfaces, "
                 "same strings, same session asked twice, different orders, with and without trailing fields after the "
                 "path), and over two real Transport + SFTPServer + SFTPClient.normalize sessions; "
@@ -490,12 +525,25 @@ def run(ctx):
                      impl=cases[i][1])
     ctx.sample({"canonicalize": {"path": "/pub/\u2025/\u2025/etc", "impl": canon("/pub/\u2025/\u2025/etc")}})
 
+    # ---- 3b'. long paths around 255 / 256 / 1024 / 4096 / 8192 / 65536 characters, dotted names at the cut points ----
+    lp = long_paths(rng, ctx.thorough)
+    cases = []
+    for su in lp:
+        o = check_one(ctx, su)
+        ctx.count(("longpath", len(su), hash(su)), kind="long-path-%d" % min(LIMITS, key=lambda L: abs(L - len(su))))
+        if o is not None and len(su) <= 1100 and len(cases) < (60 if ctx.thorough else 16):
+            cases.append((su, o))
+    bad = mm(ctx, "run_canon", "(list Z)", [(coq(cps(su)), cps(o)) for su, o in cases], shard=8)
+    for i in bad[:3]:
+        ctx.disagree("canonicalize differs from model on a long path", case={"path": cases[i][0]}, impl=cases[i][1])
+
     # ---- 3c. the REALPATH request path of the real SFTPServer: several sessions in one process ------------
     short = ["".join(t) for n in range(0, 5) for t in itertools.product(ALPHA, repeat=n)]
     pools = [short,
              [gen_long(rng) for _ in range(400 if ctx.thorough else 80)],
              [gen_unicode(rng) for _ in range(400 if ctx.thorough else 80)],
              ["/pub/../..", "../../etc/passwd", "a/./b/../../..", "//..", "//../x", "..", ".", "", "/"],
+             rng.sample(lp, min(len(lp), 64 if ctx.thorough else 16)),
              # requests with trailing fields after the path (control byte + compose-path strings, or junk)
              [(rng.choice(["/pub", "/", "", "a/b", "/pub/", "//x", "..", gen_long(rng)]), gen_trailer(rng))
               for _ in range(200 if ctx.thorough else 48)]]
